@@ -110,6 +110,16 @@ def sparkCmd (numCols : Nat) (noTruncate : Bool) (sortCols : Bytes) (t : Table) 
   let t := if !noTruncate && !sortsByValue sortCols then sparkTrim numCols t else t
   tableCmd isortFn (akeys t.cols) (akeys t.rows) t k readErrors
 
+/-- `sparkFunction` for EVERY `--sort-cols` whose comparator is a pure function of the two columns (`text`, `numeric` – the
+default –, `value`; any spelling, any modifier): `colSorter = BuildSorter(sortCols)` is the order the trim keeps the LAST
+`--cols` columns of.  `none` = a name outside that class (`contextual`, `date`: inferring; or an error, exit 2). -/
+def sparkCmdBy (numCols : Nat) (noTruncate : Bool) (sortCols : Bytes) (t : Table) (k : Counters) (readErrors : Int) : Option CmdOut :=
+  match pureSortLess sortCols with
+  | none => none
+  | some less =>
+    let t := if !noTruncate && !sortsByValue sortCols then sparkTrimBy less numCols t else t
+    some (tableCmd isortFn (akeys t.cols) (akeys t.rows) t k readErrors)
+
 /-- `bargraphFunction`: footer 0 (no extra part), `csv.WriteSubCounter`, `DetermineErrorState`. -/
 def barsCmd (srt : SortFn) (order : List Bytes) (s : SubKeyCounter) (k : Counters) (readErrors : Int) : CmdOut :=
   { exit := determineErrorState readErrors false s.errors k.matched
